@@ -44,11 +44,11 @@ func RunLegs(run *vh.Run, cmdName string, specs []LegSpec) {
 		}
 	}
 	type result struct {
-		j      job
-		rep    *Report
-		crash  string
-		out    string
-		races  string
+		j       job
+		rep     *Report
+		crash   string
+		out     string
+		races   string
 		missing bool
 	}
 	results := make([]result, len(jobs))
